@@ -1,6 +1,18 @@
 // Harness for C16 (first half): drives the real identity.Detector - GeneratePeopleDict on generated
-// commit lists (repository without a .mailmap), then Consume for every commit of the list - and
-// records PeopleDict (sorted by key), ReversedPeopleDict and the resolved author indices.
+// commit lists, then Consume for every commit of the list - and records PeopleDict (sorted by key),
+// ReversedPeopleDict and the resolved author indices.
+//
+// The commits belong to an in-memory repository.  GeneratePeopleDict asks the LAST commit of the list
+// for the file ".mailmap": cases without the input field (mailmap ...) use a commit whose tree is empty
+// (the mailmap branch is not entered), cases with it use a commit whose tree holds that blob (streams
+// mm-*, mmx-*, mmp-*, see mailmap.go).  (decoy ...) puts a .mailmap into every commit BUT the last one
+// (it must be ignored).  scale.go holds the large cases.
+//
+// Observations: (obs [(lower (raw lowered)...)] [(mm (key name email)...) | (mmpanic)] RUN...) where RUN is
+// (dict ...) (rev ...) (authors ...) directly (cases without mailmap) or (run (dict ...) (rev ...) (authors ...))
+// once per execution (the outcome with a mailmap depends on Go's map iteration order), or (panic).
+// (lower ...) lists strings.ToLower for every string of the case on which it differs from ASCII
+// lower-casing; (mm ...) is identity.ParseMailmap on the blob, sorted by key.
 package main
 
 import (
@@ -10,6 +22,7 @@ import (
 	"time"
 
 	"gopkg.in/src-d/go-git.v4/plumbing"
+	"gopkg.in/src-d/go-git.v4/plumbing/filemode"
 	"gopkg.in/src-d/go-git.v4/plumbing/object"
 	"gopkg.in/src-d/go-git.v4/storage/memory"
 	"gopkg.in/src-d/hercules.v10/verifapi/c16"
@@ -18,15 +31,40 @@ import (
 
 type sig struct{ name, email string }
 
-// carrier is a real commit of an in-memory repository whose tree is empty: GeneratePeopleDict asks
-// the LAST commit of the list for the file ".mailmap" (commit.File), which needs an object store.
-// The tree has no such file, so the mailmap branch is never entered.
-var carrier *object.Commit
+// gcase is one input: the mode, the commit list, optionally the .mailmap of the last commit and the
+// .mailmap of all other commits.
+type gcase struct {
+	exact   bool
+	sigs    []sig
+	mailmap *string
+	decoy   *string
+	runs    int
+}
 
-func makeCarrier() {
+// carrierWith makes a real commit of a fresh in-memory repository whose tree holds the given .mailmap
+// (nil: an empty tree).
+func carrierWith(mailmap *string) *object.Commit {
 	st := memory.NewStorage()
+	tree := &object.Tree{}
+	if mailmap != nil {
+		o := st.NewEncodedObject()
+		o.SetType(plumbing.BlobObject)
+		w, err := o.Writer()
+		if err != nil {
+			panic(err)
+		}
+		if _, err := w.Write([]byte(*mailmap)); err != nil {
+			panic(err)
+		}
+		w.Close()
+		bh, err := st.SetEncodedObject(o)
+		if err != nil {
+			panic(err)
+		}
+		tree.Entries = append(tree.Entries, object.TreeEntry{Name: ".mailmap", Mode: filemode.Regular, Hash: bh})
+	}
 	o := st.NewEncodedObject()
-	if err := (&object.Tree{}).Encode(o); err != nil {
+	if err := tree.Encode(o); err != nil {
 		panic(err)
 	}
 	th, err := st.SetEncodedObject(o)
@@ -43,19 +81,49 @@ func makeCarrier() {
 	if err != nil {
 		panic(err)
 	}
-	carrier, err = object.GetCommit(st, h)
+	c, err := object.GetCommit(st, h)
 	if err != nil {
 		panic(err)
 	}
-	if _, err := carrier.File(".mailmap"); err == nil {
-		panic("the carrier commit has a .mailmap")
+	f, err := c.File(".mailmap")
+	if (err == nil) != (mailmap != nil) {
+		panic("carrier commit: unexpected .mailmap lookup result")
 	}
+	if mailmap != nil {
+		if txt, err := f.Contents(); err != nil || txt != *mailmap {
+			panic("carrier commit: .mailmap does not read back")
+		}
+	}
+	return c
 }
 
-func commitsOf(sigs []sig) []*object.Commit {
-	res := make([]*object.Commit, len(sigs))
-	for i, s := range sigs {
-		c := *carrier // keeps the object store of the carrier
+var plainCarrier *object.Commit
+var carrierCache = map[string]*object.Commit{}
+
+func carrierFor(mailmap *string) *object.Commit {
+	if mailmap == nil {
+		return plainCarrier
+	}
+	if c, ok := carrierCache[*mailmap]; ok {
+		return c
+	}
+	if len(carrierCache) > 4096 {
+		carrierCache = map[string]*object.Commit{}
+	}
+	c := carrierWith(mailmap)
+	carrierCache[*mailmap] = c
+	return c
+}
+
+func commitsOf(g *gcase) []*object.Commit {
+	res := make([]*object.Commit, len(g.sigs))
+	last := carrierFor(g.mailmap)
+	other := carrierFor(g.decoy)
+	for i, s := range g.sigs {
+		c := *other // keeps the object store of the carrier
+		if i == len(g.sigs)-1 {
+			c = *last
+		}
 		c.Hash = plumbing.NewHash(fmt.Sprintf("%040x", i+1))
 		c.Author = object.Signature{Name: s.name, Email: s.email, When: time.Unix(1500000000+int64(i), 0)}
 		c.Committer = c.Author
@@ -74,15 +142,44 @@ func unstr(x Sx) string {
 	return string(b)
 }
 
-// run observes the implementation on one commit list.
-func run(exact bool, sigs []sig) Sx {
+func asciiLower(s string) string {
+	b := []byte(s)
+	for i, ch := range b {
+		if ch >= 'A' && ch <= 'Z' {
+			b[i] = ch + 32
+		}
+	}
+	return string(b)
+}
+
+// lowerTable observes strings.ToLower on every string the analysed code may pass to it.
+type lowerTable struct {
+	seen map[string]bool
+	out  []Sx
+}
+
+func (t *lowerTable) add(s string) {
+	if t.seen == nil {
+		t.seen = map[string]bool{}
+	}
+	if t.seen[s] {
+		return
+	}
+	t.seen[s] = true
+	if l := strings.ToLower(s); l != asciiLower(s) {
+		t.out = append(t.out, L(str(s), str(l)))
+	}
+}
+
+// runOnce observes one execution of GeneratePeopleDict + Consume.
+func runOnce(g *gcase) (Sx, bool) {
 	var obs Sx
-	msg, p := Catch(func() {
-		d := &c16.Detector{ExactSignatures: exact}
+	_, p := Catch(func() {
+		d := &c16.Detector{ExactSignatures: g.exact}
 		if err := d.Initialize(nil); err != nil {
 			panic(err)
 		}
-		commits := commitsOf(sigs)
+		commits := commitsOf(g)
 		d.GeneratePeopleDict(commits)
 		keys := make([]string, 0, len(d.PeopleDict))
 		for k := range d.PeopleDict {
@@ -105,20 +202,71 @@ func run(exact bool, sigs []sig) Sx {
 			}
 			authors[i] = res[c16.DependencyAuthor].(int)
 		}
-		obs = T("obs", T("dict", dict...), T("rev", rev...), T("authors", Ints(authors)))
+		obs = L(T("dict", dict...), T("rev", rev...), T("authors", Ints(authors)))
 	})
-	if p {
-		_ = msg
-		return T("obs", T("panic"))
-	}
-	return obs
+	return obs, p
 }
 
-func emit(c *Config, kind string, exact bool, sigs []sig) {
-	cs := make([]Sx, len(sigs))
+// run observes the implementation on one case.
+func run(g *gcase) Sx {
+	var fields []Sx
+	lt := &lowerTable{}
+	for _, s := range g.sigs {
+		lt.add(s.name)
+		lt.add(s.email)
+		if g.exact {
+			lt.add((&object.Signature{Name: s.name, Email: s.email}).String())
+		}
+	}
+	var mmField []Sx
+	if g.mailmap != nil {
+		var table map[string]object.Signature
+		if _, p := Catch(func() { table = c16.ParseMailmap(*g.mailmap) }); p {
+			mmField = append(mmField, T("mmpanic"))
+		} else {
+			keys := make([]string, 0, len(table))
+			for k := range table {
+				keys = append(keys, k)
+			}
+			sort.Strings(keys)
+			ents := make([]Sx, len(keys))
+			for i, k := range keys {
+				ents[i] = L(str(k), str(table[k].Name), str(table[k].Email))
+				lt.add(k)
+				lt.add(table[k].Name)
+				lt.add(table[k].Email)
+			}
+			mmField = append(mmField, T("mm", ents...))
+		}
+	}
+	if len(lt.out) > 0 {
+		fields = append(fields, T("lower", lt.out...))
+	}
+	fields = append(fields, mmField...)
+	runs := g.runs
+	if runs < 1 {
+		runs = 1
+	}
+	for r := 0; r < runs; r++ {
+		o, p := runOnce(g)
+		if p {
+			fields = append(fields, T("panic"))
+			break
+		}
+		if g.mailmap == nil {
+			fields = append(fields, o.List...)
+		} else {
+			fields = append(fields, T("run", o.List...))
+		}
+	}
+	return T("obs", fields...)
+}
+
+func emitCase(c *Config, kind string, g *gcase) {
+	cs := make([]Sx, len(g.sigs))
 	seenE := map[string]bool{}
 	overlap := false
-	for i, s := range sigs {
+	for i, s := range g.sigs {
 		cs[i] = L(str(s.name), str(s.email))
 		le, ln := strings.ToLower(s.email), strings.ToLower(s.name)
 		if seenE[le] || seenE[ln] {
@@ -127,15 +275,52 @@ func emit(c *Config, kind string, exact bool, sigs []sig) {
 		seenE[le] = true
 		seenE[ln] = true
 	}
-	c.Emit(T("kind", A(kind)), T("nt", B(len(sigs) >= 2 && overlap)), T("exact", B(exact)), T("commits", cs...), run(exact, sigs))
+	nt := len(g.sigs) >= 2 && overlap
+	fields := []Sx{T("kind", A(kind)), T("exact", B(g.exact)), T("commits", cs...)}
+	if g.mailmap != nil {
+		fields = append(fields, T("mailmap", str(*g.mailmap)))
+		// non-trivial: the mailmap has an entry that touches an author of the list
+		if table, ok := safeParse(*g.mailmap); ok && !g.exact {
+			for k, v := range table {
+				if seenE[strings.ToLower(k)] || (v.Email != "" && seenE[strings.ToLower(v.Email)]) || (v.Name != "" && seenE[strings.ToLower(v.Name)]) {
+					nt = true
+				}
+			}
+		}
+	}
+	if g.decoy != nil {
+		fields = append(fields, T("decoy", str(*g.decoy)))
+	}
+	fields = append([]Sx{fields[0], T("nt", B(nt))}, fields[1:]...)
+	fields = append(fields, run(g))
+	c.Emit(fields...)
+}
+
+func safeParse(txt string) (table map[string]object.Signature, ok bool) {
+	_, p := Catch(func() { table = c16.ParseMailmap(txt) })
+	return table, !p
+}
+
+func emit(c *Config, kind string, exact bool, sigs []sig) {
+	emitCase(c, kind, &gcase{exact: exact, sigs: sigs})
 }
 
 // ---- generators ----
 
-// letters on which strings.ToLower acts as ASCII lower-casing: ASCII, and valid UTF-8 of characters
-// that have no upper-case form to be mapped from
-var namePool = []string{"a", "b", "ab", "Bob", "bob", "BOB", "al ice", "", "x", "é", "ßa", "中", "a@x", "d <e>", "Zed", "zed", "o'k"}
-var mailPool = []string{"a@x", "A@X", "b@y", "B@y", "", "bob@z.org", "Bob@Z.org", "é@x", "a", "bob", "c@中", "noat", "q@q", "Q@q"}
+// Names and e-mails.  The first 17 / 14 entries are the original pools (ASCII, and valid UTF-8 of characters
+// that have no upper-case form to be mapped from); the rest is the class "input attributes": "|", "<", ">",
+// " <" inside a name, spaces and tabs inside and around, upper/lower pairs outside ASCII (Latin-1, Greek with
+// the final sigma, Cyrillic, the Kelvin sign whose lower case is the ASCII k, the dotted capital I whose lower
+// case is two runes), an invalid UTF-8 byte (strings.ToLower replaces it by U+FFFD).
+var namePool = []string{"a", "b", "ab", "Bob", "bob", "BOB", "al ice", "", "x", "\u00e9", "\u00dfa", "\u4e2d", "a@x", "d <e>", "Zed", "zed", "o'k",
+	"Bob Smith <bob@old.x>", "x <y", "z>", "<", ">", " <", "a|b", "|", " bob", "bob ", "b\tob", "\tbob", "Bob  Smith", "bob smith",
+	"\u00c9", "E\u0301", "e\u0301", "\u00c4rger", "\u00e4rger", "\u03a3\u0391\u03a3", "\u03c3\u03b1\u03c2", "\u03c3\u03b1\u03c3", "\u0416\u0443\u043a", "\u0436\u0443\u043a",
+	"\u212a", "k", "\u0130", "i\u0307", "i", "\u01c5", "\u01c6", "\xc3", "\xff@x", "Bob <>", "a <a@x>"}
+var mailPool = []string{"a@x", "A@X", "b@y", "B@y", "", "bob@z.org", "Bob@Z.org", "\u00e9@x", "a", "bob", "c@\u4e2d", "noat", "q@q", "Q@q",
+	"\u00c9@x", "\u00c4@\u00d6", "\u00e4@\u00f6", "\u03a3@x", "\u03c3@x", "\u03c2@x", "\u212a@x", "k@x", "K@x", "\u0130@x", "i\u0307@x", "a|b@x", "|", "<a@x>", "a@x>", "<a@x",
+	"a @x", " a@x", "a@x ", "a\t@x", "\u0416@x", "\u0436@x", "\xc3@x", "bob@old.x", "a@x> <b@y"}
+
+const nOldNames, nOldMails = 17, 14
 
 func mixCase(c *Config, s string) string {
 	b := []byte(s)
@@ -163,6 +348,22 @@ func randomSigs(c *Config, n, names, mails int, bars bool) []sig {
 			em = "|" + em
 		}
 		res[i] = sig{mixCase(c, nm), mixCase(c, em)}
+	}
+	return res
+}
+
+// attrSigs draws from the whole pools (input attributes), without ASCII case flips half of the time so
+// that the non-ASCII case pairs meet each other
+func attrSigs(c *Config, n int) []sig {
+	res := make([]sig, n)
+	lo := c.Rng.Intn(2) * nOldNames
+	for i := range res {
+		nm := namePool[lo+c.Rng.Intn(len(namePool)-lo)]
+		em := mailPool[c.Rng.Intn(len(mailPool))]
+		if c.Rng.Intn(2) == 0 {
+			nm, em = mixCase(c, nm), mixCase(c, em)
+		}
+		res[i] = sig{nm, em}
 	}
 	return res
 }
@@ -195,24 +396,63 @@ func exhaustive(c *Config, maxLen int) {
 	}
 }
 
+// attrExhaustive: every list of 1..2 commits over signatures built from the delimiters of the signature
+// and description formats and from non-ASCII case pairs
+func attrExhaustive(c *Config) {
+	names := []string{"a <", "a", "A <B>", "|", "É", "é", " ", "a\t"}
+	mails := []string{"e", "<e>", "e> <f", "é@", "É@", "|", "e "}
+	var alpha []sig
+	for _, n := range names {
+		for _, m := range mails {
+			alpha = append(alpha, sig{n, m})
+		}
+	}
+	for _, exact := range []bool{false, true} {
+		for _, s := range alpha {
+			emit(c, "attr-exh1", exact, []sig{s})
+		}
+		for i, s := range alpha {
+			for j, t := range alpha {
+				if (i*31+j*17)%3 == 0 || c.Thorough() {
+					emit(c, "attr-exh2", exact, []sig{s, t})
+				}
+			}
+		}
+	}
+}
+
 func main() {
 	c := Setup()
 	defer c.Close()
-	makeCarrier()
+	plainCarrier = carrierWith(nil)
 	if c.Replay != "" {
 		for _, cs := range c.ReplayCases() {
 			kind, _ := cs.Field("kind")
 			ex, _ := cs.Field("exact")
+			g := &gcase{exact: ex.Args()[0].Int() != 0}
+			if gen, ok := cs.Field("gen"); ok {
+				a := gen.Args()
+				emitFew(c, a[1].Int(), a[2].Int(), a[3].Int(), g.exact)
+				continue
+			}
 			cm, _ := cs.Field("commits")
-			var sigs []sig
 			for _, x := range cm.Args() {
-				sigs = append(sigs, sig{unstr(x.List[0]), unstr(x.List[1])})
+				g.sigs = append(g.sigs, sig{unstr(x.List[0]), unstr(x.List[1])})
+			}
+			if m, ok := cs.Field("mailmap"); ok {
+				s := unstr(m.Args()[0])
+				g.mailmap = &s
+				g.runs = 8
+			}
+			if m, ok := cs.Field("decoy"); ok {
+				s := unstr(m.Args()[0])
+				g.decoy = &s
 			}
 			k := "replay"
 			if len(kind.Args()) > 0 {
 				k = kind.Args()[0].Atom
 			}
-			emit(c, k, ex.Args()[0].Int() != 0, sigs)
+			emitCase(c, k, g)
 		}
 		return
 	}
@@ -221,17 +461,18 @@ func main() {
 	} else {
 		exhaustive(c, 3)
 	}
+	attrExhaustive(c)
 	// an empty commit list: commits[len(commits)-1] panics (index out of range) in both modes
 	emit(c, "empty", false, nil)
 	emit(c, "empty", true, nil)
 	n := c.Count(3000, 40000)
 	for i := 0; i < n; i++ {
 		exact := c.Rng.Intn(3) == 0
-		switch c.Rng.Intn(5) {
+		switch c.Rng.Intn(6) {
 		case 0: // few names, few mails: heavy overlap
 			emit(c, "dense", exact, randomSigs(c, 1+c.Rng.Intn(12), 5, 5, false))
 		case 1:
-			emit(c, "wide", exact, randomSigs(c, 1+c.Rng.Intn(40), len(namePool), len(mailPool), false))
+			emit(c, "wide", exact, randomSigs(c, 1+c.Rng.Intn(40), nOldNames, nOldMails, false))
 		case 2: // names and e-mails drawn from the same strings
 			l := randomSigs(c, 1+c.Rng.Intn(10), 6, 6, false)
 			for j := range l {
@@ -242,8 +483,12 @@ func main() {
 			emit(c, "crossed", exact, l)
 		case 3:
 			emit(c, "bars", exact, randomSigs(c, 1+c.Rng.Intn(10), 6, 6, true))
+		case 4:
+			emit(c, "attr", exact, attrSigs(c, 1+c.Rng.Intn(12)))
 		default:
 			emit(c, "mid", exact, randomSigs(c, 1+c.Rng.Intn(20), 9, 8, false))
 		}
 	}
+	mailmapStreams(c)
+	scaleStreams(c)
 }
